@@ -21,6 +21,10 @@ const MARKERS: [&str; 10] = [
     "MACRO EXPANSIONS",
     "STRING INPUTS",
 ];
+/// markers that the mutated texts of the framing tie drop / duplicate / pad / swap
+const MUT_MARKERS: [&str; 11] = [
+    "DEPENDENCIES", "EXPORTS", "BINDINGS", "FUNCTIONS", "INDEX MACROS", "CODE MACROS", "SPANS", "FILES", "MACRO EXPANSIONS", "STRING INPUTS", "TEST ASSERTS",
+];
 const F64_SPELLINGS: [&str; 6] = ["NaN", "W", "empty", "tomb", "∞", "-∞"];
 
 // ---------------------------------------------------------------- running
@@ -465,6 +469,7 @@ fn fixed_programs() -> Vec<String> {
         "⍤\"fine\" 1",
         "Foo ← map [1 2] [3 4]\n⊂Foo Foo",
         "÷∞ ∞",
+        "¯NaN",
         "⍜(×∞)(+1) 5",
     ]
     .into_iter()
@@ -474,6 +479,31 @@ fn fixed_programs() -> Vec<String> {
         // deterministic filling
         let mut r = Rng::new(7);
         v.push(fill(&mut r, t));
+    }
+    v
+}
+
+/// directed family: labelled map constants whose hash table (written in full because of the
+/// label) holds tombstone cells left by a compile-time `remove`, looked up at run time
+/// (`+⌊⚂` keeps the lookups from being folded at compile time) for every key
+fn directed_programs() -> Vec<(String, String)> {
+    let mut v = Vec::new();
+    for n in [4usize, 6, 8, 11, 16] {
+        for (kn, keys) in [("range", format!("⇡{n}")), ("offset", format!("+100⇡{n}")), ("times7", format!("×7⇡{n}"))] {
+            let mut ks: Vec<usize> = vec![0, 1, 2, n / 2, n - 1];
+            ks.dedup();
+            for k in ks {
+                let removes = match kn {
+                    "range" => format!("remove {k}"),
+                    "offset" => format!("remove {} remove {}", 100 + k, 100 + (k + 1) % n),
+                    _ => format!("remove {}", 7 * k),
+                };
+                let src = format!(
+                    "K ← {keys}\nM ← $Tbl {removes} map K ×10⇡{n}\n≡(has ⊙M +⌊⚂) K\n≡(⍣(get ⊙M|¯1◌) +⌊⚂) K\n⧻M\nM"
+                );
+                v.push((format!("directed-tomb#{n}-{kn}-{k}"), src));
+            }
+        }
     }
     v
 }
@@ -593,15 +623,16 @@ fn check_program(name: &str, src: &str, argsets: &[Vec<Value>], st: &mut Stats) 
         }
         if let Err((kind, detail)) = compare_runs(&a, &b) {
             differs = true;
-            let key = if let Some(s) = has_scalar_spelling(&text) {
+            let spelled = has_scalar_spelling(&text);
+            let key = if kind == "value" && detail.starts_with("show") && detail.contains("¯NaN") {
+                // the sign of a NaN constant is not kept ("NaN" spelling): visible when printed
+                "uasm-nan-sign-lost".to_string()
+            } else if let Some(s) = spelled {
                 format!("uasm-string-reads-as-number:{s}")
             } else if kind == "error" && a.res.is_err() && b.res.is_ok() && text.contains("[\"TEST_ASSERT\",") {
                 "uasm-test-assert-count-lost".to_string()
             } else if kind == "value" && float_not_roundtrip(&text).is_some() {
                 "uasm-float-not-roundtrip".to_string()
-            } else if kind == "value" && detail.starts_with("show") && detail.contains("¯NaN") {
-                // the sign of a NaN constant is not kept ("NaN" spelling): visible when printed
-                "uasm-nan-sign-lost".to_string()
             } else if kind == "value" && a.stack.iter().any(|v| v.is_map()) {
                 // a map constant is written with normalised keys: the re-read map has another
                 // internal layout, and joining maps with equal keys depends on the layout
@@ -832,19 +863,19 @@ fn tie_framing(r: &mut Rng, n: usize) {
         match r.below(6) {
             0 => {
                 // drop one marker line
-                let m = MARKERS[r.below(MARKERS.len())];
+                let m = MUT_MARKERS[r.below(MUT_MARKERS.len())];
                 let t = text.replacen(&format!("\n{m}\n"), "\n", 1);
                 emit("drop-marker", &src, &t);
             }
             1 => {
                 // duplicate one marker line
-                let m = MARKERS[r.below(MARKERS.len())];
+                let m = MUT_MARKERS[r.below(MUT_MARKERS.len())];
                 let t = text.replacen(&format!("\n{m}\n"), &format!("\n{m}\n\n{m}\n"), 1);
                 emit("dup-marker", &src, &t);
             }
             2 => {
                 // marker glued to other text (not a whole line)
-                let m = MARKERS[r.below(MARKERS.len())];
+                let m = MUT_MARKERS[r.below(MUT_MARKERS.len())];
                 let t = text.replacen(&format!("\n{m}\n"), &format!("\n  {m}  \r\n"), 1);
                 emit("padded-marker", &src, &t);
             }
@@ -855,14 +886,14 @@ fn tie_framing(r: &mut Rng, n: usize) {
             }
             4 => {
                 // a later marker word inside the string inputs (harmless) or appended as an extra string
-                let m = MARKERS[r.below(MARKERS.len())];
+                let m = MUT_MARKERS[r.below(MUT_MARKERS.len())];
                 let t = if text.contains("\nSTRING INPUTS\n") { format!("{text}\"{m}\"\n") } else { format!("{text}\nSTRING INPUTS\n\"{m}\"\n") };
                 emit("marker-in-strings", &src, &t);
             }
             _ => {
                 // swap two markers
-                let i = r.below(MARKERS.len() - 1);
-                let (a, b) = (MARKERS[i], MARKERS[i + 1]);
+                let i = r.below(MUT_MARKERS.len() - 1);
+                let (a, b) = (MUT_MARKERS[i], MUT_MARKERS[i + 1]);
                 let t = text.replacen(&format!("\n{a}\n"), "\n@@@\n", 1).replacen(&format!("\n{b}\n"), &format!("\n{a}\n"), 1).replacen("\n@@@\n", &format!("\n{b}\n"), 1);
                 emit("swap-markers", &src, &t);
             }
@@ -903,6 +934,9 @@ fn main() {
             for (i, p) in fixed_programs().iter().enumerate() {
                 let argsets = vec![vec![], gen_args(&mut r), gen_args(&mut r)];
                 check_program(&format!("fixed#{i}"), p, &argsets, &mut st);
+            }
+            for (name, p) in directed_programs() {
+                check_program(&name, &p, &[vec![]], &mut st);
             }
             let fixed = st.programs;
             if corpus {
